@@ -848,7 +848,13 @@ class TokenizerCore:
             if self._scan_comment(word):
                 return
             if prev_space or single_token or not char:
-                self._advance(size - 1)
+                if " " in word:
+                    # Multi-word keywords can span line breaks, so advance one character
+                    # at a time to keep the line and column bookkeeping accurate
+                    for _ in range(size - 1):
+                        self._advance()
+                else:
+                    self._advance(size - 1)
                 word = word.upper()
                 self._add(self.keywords[word], text=word)
                 return
